@@ -4,6 +4,7 @@ Each monitor walks one Layer A case (checklib.trace.Case) and yields findings
   {"property", "step", "what", "signature"}
 A signature names the *cause*, so that a known finding suppresses only itself (DESIGN.md section 6).
 """
+import re
 from .trace import readable
 
 WRITE_KINDS = ("put", "putw", "putttl", "putwttl", "upsert", "delete")
@@ -291,6 +292,18 @@ def mon_C06(case):
             yield finding("C06", st, f"unexpected status {status}", "C06/unexpected-status")
 
 
+def absent_state(pre, k):
+    """key_state, with the expired-but-physically-present state split in two: the entry is still in the expiry
+    index (the sweeper WILL remove it: the transient state of known finding D3) or it is not (nothing will ever
+    remove it: the key is unreadable and un-puttable for good — a different failure)"""
+    state = key_state(pre, k)
+    if state == "expired-unswept":
+        e = pre["store"][k]
+        if not any(i == e["id"] and x == e["expiry"] for (_, i, x) in pre["ttl"]):
+            return "expired-unsweepable"
+    return state
+
+
 def mon_C07(case):
     for st, pre, post, fifo, ex in Walk(case):
         if post is pre:
@@ -298,7 +311,7 @@ def mon_C07(case):
         o = st.out.split()
         if st.kind in ("put", "putw", "putttl", "putwttl") and o and o[0] == "ack":
             k = int(st.toks[2])
-            state = key_state(pre, k)
+            state = absent_state(pre, k)
             exists = o[2] == "rejected:exists"
             if state == "readable":
                 if not exists:
@@ -309,7 +322,7 @@ def mon_C07(case):
                 yield finding("C07", st, f"put of key {k} that reads as absent ({state}) rejected with 'key already exists'", f"C07/key-already-exists/state={state}")
         if st.kind == "worker" and ex and "ev" in ex and o[0] == "worked" and o[1] in ("Put", "PutWithTTL") and o[2] == "rejected:exists":
             k = int(ex["ev"][2])
-            state = key_state(pre, k)
+            state = absent_state(pre, k)
             if state not in ("readable", "soft-deleted"):
                 yield finding("C07", st, f"queued put of key {k} that reads as absent ({state}) rejected with 'key already exists'", f"C07/key-already-exists/state={state}")
         if st.kind == "worker" and ex and "ev" in ex and o[0] == "worked" and o[1] in ("Put", "PutWithTTL") and o[2] == "accepted":
@@ -794,21 +807,53 @@ def mon_C14_pure(case):
                 yield finding("C14", st, f"next_power_2({c}) = {v}", "C14/next-power-of-two")
 
 
+def _oracle_bits(ev, name):
+    m = re.search(r"\b" + name + r"=([01,]*)", ev)
+    return [int(x) for x in m.group(1).split(",") if x != ""] if m else []
+
+
 def mon_C14(case):
-    """Within the whole-cache runs: an estimate never exceeds 16, counters never wrap (rows only grow between resets)."""
+    """Within the whole-cache runs: counters never wrap (rows only grow inside an ageing window), and ageing clears the
+    first-access filter: with nothing set since the last ageing, the filter must answer "absent" (a Bloom filter has
+    false positives only once some bit is set) — so the access right after ageing is filtered, not counted, and an
+    estimate taken right after ageing carries no +1.  The ageing instants are recomputed here from the configured
+    counter count and the number of recorded accesses; nothing is taken from the model."""
     yield from mon_C14_pure(case)
+    reset_at = max(int(case.cfg.get("counters", 0) or 0), 1)      # TinyLFU::new: reset_counters_at = counters (not rounded up)
+    incs = 0
+    empty = True           # nothing set in the filter since it was created / last cleared
+    told = set()
     for st, pre, post, fifo, ex in Walk(case):
-        if post is pre or st.kind != "consumer":
+        if post is pre:
             continue
         if post["shut"] or pre["shut"]:
+            break
+        if st.kind == "worker":
+            answers = _oracle_bits(st.ev, "dk")
+            if empty and any(answers) and "has" not in told:
+                told.add("has")
+                yield finding("C14", st, "the first-access filter answered 'present' although nothing was recorded since the last ageing", "C14/filter-not-cleared")
             continue
-        reset = post["incs"] < pre["incs"] + 1 and post["incs"] <= pre["incs"]
-        if not reset:
+        if st.kind != "consumer":
+            continue
+        aged = False
+        for added in _oracle_bits(st.ev, "dkadd"):
+            if empty and not added and "add" not in told:
+                told.add("add")
+                yield finding("C14", st, "the access right after ageing was counted instead of filtered: the first-access filter was not cleared", "C14/filter-not-cleared")
+            empty = False
+            incs += 1
+            if incs >= reset_at:
+                incs, empty, aged = 0, True, True
+        if incs != post["incs"] and "incs" not in told:
+            told.add("incs")
+            yield finding("C14", st, f"{post['incs']} recorded accesses in the window, {incs} expected for ageing every {reset_at}", "C14/ageing-instant-wrong")
+            incs = post["incs"]
+        if not aged:
             for a, b in zip(pre["rows"], post["rows"]):
-                for i in range(0, min(len(a), len(b)), 1):
-                    if int(b[i], 16) < int(a[i], 16):
-                        yield finding("C14", st, f"a counter decreased without ageing: {a} -> {b}", "C14/counter-decreased")
-                        break
+                if any(int(y, 16) < int(x, 16) for x, y in zip(a, b)):
+                    yield finding("C14", st, f"a counter decreased without ageing: {a} -> {b}", "C14/counter-decreased")
+                    break
 
 
 _SEQ = {
